@@ -269,6 +269,30 @@ def p_c05(prop, tier):
     return generic(prop, tier, jobs, rule, ["differential: no arithmetic oracle; agreement of all configurations on a wrong value would not be seen here (C01/C02 judge values)"] + ASSUME_ORACLE[1:], post=post)
 
 
+def p_c09(prop, tier):
+    if tier == "quick":
+        jobs = parse_jobs(prop, tier, CFG5, ["default", "compact"], 4, 2, 12)
+    else:
+        jobs = parse_jobs(prop, tier, CFG8, CFG5, 8, 4, 75)
+    rule = ("clusters of nearby valid inputs (variants around one rounding boundary; three adjacent floats and the midpoints between them; runs of consecutive significands w, w+1, ... around 2^53 / 2^24 / 10^19 / powers of ten "
+            "at fixed exponent with random layouts; the same digits over consecutive exponents across every early-out; continued-fraction hard cases and neighbours; depth perturbations P4999..9 < P5 < P5000..01 up to 20000 digits out; range ends) "
+            "are sorted by their exact decimal value (digit-string comparison) and parsed in that order; monitor: results non-decreasing, equal values give equal bits. "
+            "Non-trivial/distinct = distinct adjacent pair (hash of both inputs); pairs decided by different tiers are counted from the hooks.")
+    return generic(prop, tier, jobs, rule, ["order of the inputs is decided by the harness' exact decimal comparison; no arithmetic oracle is needed for the verdict"] + ASSUME_ORACLE[1:])
+
+
+def p_c10(prop, tier):
+    if tier == "quick":
+        jobs = parse_jobs(prop, tier, CFG5, ["default", "compact"], 4, 2, 12)
+    else:
+        jobs = parse_jobs(prop, tier, CFG8, CFG5, 8, 4, 75)
+    rule = ("for a base digit sequence (boundary variants, 19-digit ties, seams, hard cases, range ends, random; 1..3000 significant digits) every spelling of the same real number is parsed: "
+            "each split position between integer and fraction (all positions up to 48 digits, else a sample incl. the 19/20 seams), digits moved into the exponent (integer padded with 1..800 zeros), "
+            "empty integer with 0..5000 leading fraction zeros, 0..40 appended fraction zeros, and combinations; monitor: all spellings return the bits of the first; the first is anchored to the exact oracle on 1/8 of the bases. "
+            "Non-trivial/distinct = distinct spelling (input hash).")
+    return generic(prop, tier, jobs, rule, ["metamorphic: a value that is wrong in every spelling alike is only seen by the sampled oracle anchor (and by C01/C02)"] + ASSUME_ORACLE)
+
+
 def hashlib_sig(s):
     import hashlib
     return hashlib.sha1(s.encode()).hexdigest()[:16]
@@ -276,7 +300,7 @@ def hashlib_sig(s):
 
 PLANS = {
     "C01": p_oracle, "C02": p_oracle, "C06": p_oracle, "C07": p_oracle,
-    "C03": p_c03, "C04": p_c04, "C05": p_c05,
+    "C03": p_c03, "C04": p_c04, "C05": p_c05, "C09": p_c09, "C10": p_c10,
 }
 
 
@@ -312,6 +336,10 @@ def replay(prop, path):
             kf = os.path.join(workdir, "replay.case")
             open(kf, "w").write(body["case_key"])
         extra += ["--case-file", kf, "--fmt", body.get("fmt", "f64")]
+    if body.get("pair_keys"):
+        kf = os.path.join(workdir, "replay.pair")
+        open(kf, "w").write("\n".join(body["pair_keys"]) + "\n")
+        extra += ["--pair-file", kf, "--fmt", body.get("fmt", "f64")]
     for a in body.get("replay_args", []):
         extra.append(a)
     r = run_shard(job, 0, body.get("property", prop), seed(), workdir, extra)
